@@ -7,6 +7,8 @@ mod model;
 mod obs;
 mod ops;
 mod payload;
+mod pp;
+mod readers;
 mod report;
 mod state;
 mod step;
@@ -16,6 +18,7 @@ mod tokens;
 use explore::{Init, Profile, Report, RunCfg};
 use serde_json::{json, Value};
 use std::time::{Duration, Instant};
+use ops::Op;
 use step::*;
 
 pub const VERIF: &str = "/verif";
@@ -87,7 +90,6 @@ pub fn plan(prop: &str, tier: &str) -> Plan {
         "C16" => if q { vec![(2, 3), (3, 5), (4, 5)] } else { vec![(2, 3), (3, 6), (4, 6), (4, 7)] },
         "C17" => {
             judge.rich_digest = true;
-            judge.target = 0;
             if q { vec![(3, 4), (4, 5)] } else { vec![(3, 5), (4, 6)] }
         }
         "C05" => if q { vec![(2, 3), (3, 5), (4, 6)] } else { core_t },
@@ -194,6 +196,9 @@ fn cmd_sweep(args: &[String]) -> i32 {
             validate_paths: !flag(args, "--no-validate"),
             keep_digests: true,
             collision_audit: flag(args, "--collision-audit"),
+            collect: false,
+            dump_level: arg(args, "--dump-level").and_then(|s| s.parse().ok()),
+            dump_out: arg(args, "--dump-out"),
         };
         let r = explore::explore(&cfg, &known);
         eprintln!(
@@ -212,7 +217,45 @@ fn cmd_sweep(args: &[String]) -> i32 {
             break;
         }
     }
-    let unknown = report::emit(
+    // C13: with_capacity(n) changes nothing observable: same digest stream as new(), capacity >= n
+    let mut extra_unknown = 0usize;
+    let mut extra = json!({});
+    if prop == "C13" && !reports.iter().any(|r| r.violations.iter().any(|v| !v.known)) {
+        let (n, a) = if tier == "quick" { (3, 5) } else { (4, 6) };
+        let mk = |init: Init| RunCfg {
+            n, a,
+            profile: pl.profile,
+            judge: pl.judge.clone(),
+            inits: vec![init],
+            threads: threads(),
+            deadline: Some(deadline),
+            state_cap: 40_000_000,
+            seed: seed(),
+            validate_paths: true,
+            keep_digests: true,
+            collision_audit: false,
+            collect: false,
+            dump_level: None,
+            dump_out: None,
+        };
+        let base = explore::explore(&mk(Init::New), &known);
+        let mut caps = Vec::new();
+        for k in [0usize, 1, 5, 64] {
+            let a0: indextree::Arena<payload::Payload> = indextree::Arena::with_capacity(k);
+            let r = explore::explore(&mk(Init::WithCapacity(k)), &known);
+            let same = r.digests == base.digests && r.states == base.states && r.transitions == base.transitions;
+            caps.push(json!({"with_capacity": k, "capacity": a0.capacity(), "same_digest_stream_as_new": same, "states": r.states}));
+            if a0.capacity() < k {
+                extra_unknown += emit_simple("C13", "with_capacity|capacity|-|too-small", &format!("Arena::with_capacity({k}).capacity() = {}", a0.capacity()), &known, json!({"engine": "sweep"}));
+            }
+            if !same {
+                extra_unknown += emit_simple("C13", "with_capacity|behaviour|-|differs-from-new", &format!("exploring from Arena::with_capacity({k}) gives a different digest stream than from Arena::new() at bounds ({n},{a})"), &known, json!({"engine": "sweep"}));
+            }
+            reports.push(r);
+        }
+        extra = json!({"with_capacity_runs": caps});
+    }
+    let unknown = extra_unknown + report::emit(
         &prop,
         pl.judge.target,
         &tier,
@@ -236,7 +279,7 @@ fn cmd_sweep(args: &[String]) -> i32 {
             &tier,
             &reports,
             unknown,
-            json!({}),
+            extra,
             vec![
                 "small scope: behaviours that need more slots / allocations than the completed bounds are not explored".into(),
                 "stale ids of recycled slots, ids of other arenas and remove/detach of removed ids are documented misuse and outside the alphabet".into(),
@@ -252,6 +295,350 @@ fn cmd_sweep(args: &[String]) -> i32 {
     if unknown > 0 {
         1
     } else {
+        0
+    }
+}
+
+/// Report a violation found by one of the non-E1 engines (or a KNOWN-FINDING); returns 1 if unknown.
+fn emit_simple(prop: &str, sig: &str, detail: &str, known: &known::Known, replay: Value) -> usize {
+    let target = prop_from_name(prop).unwrap();
+    if known.matches(target, sig) {
+        println!("KNOWN-FINDING: property={} {} [{}]", prop, known.describe(target, sig), sig);
+        return 0;
+    }
+    let _ = std::fs::create_dir_all(format!("{VERIF}/replays"));
+    let path = format!("{VERIF}/replays/{}-{}.json", prop, report::sig_hash(sig));
+    let mut j = replay;
+    j["property"] = json!(prop);
+    j["signature"] = json!(sig);
+    j["detail"] = json!(detail);
+    j["buildcfg"] = json!(report::buildcfg());
+    std::fs::write(&path, serde_json::to_string_pretty(&j).unwrap()).expect("write replay");
+    println!("VIOLATION property={} replay={}", prop, path);
+    println!("  signature: {}\n  observed : {}", sig, detail);
+    1
+}
+
+fn write_json(path: &str, v: &Value) {
+    if let Some(dir) = std::path::Path::new(path).parent() {
+        let _ = std::fs::create_dir_all(dir);
+    }
+    std::fs::write(path, serde_json::to_string_pretty(v).unwrap()).expect("write json");
+}
+
+/// C14: pretty-printer input enumeration.
+fn cmd_pp(args: &[String]) -> i32 {
+    let tier = arg(args, "--tier").unwrap_or_else(|| "quick".into());
+    let q = tier == "quick";
+    let t0 = Instant::now();
+    let known = known::Known::load(&format!("{VERIF}/known_findings.jsonl"));
+    let (max_n, full_n, k) = if q { (5, 4, 3) } else { (7, 5, 3) };
+    let max_n = arg(args, "--max-n").and_then(|s| s.parse().ok()).unwrap_or(max_n);
+    let pool = rayon::ThreadPoolBuilder::new().num_threads(threads()).build().unwrap();
+    let res = pool.install(|| pp::run(max_n, full_n, k));
+    eprintln!(
+        "[C14 {tier}] shapes={} renderings={} distinct non-trivial expected outputs={} mismatches={} {:.1}s",
+        res.shapes, res.evaluations, res.distinct_nontrivial, res.mismatches.len(), t0.elapsed().as_secs_f64()
+    );
+    let mut unknown = 0;
+    let mut seen_sig: Vec<String> = Vec::new();
+    for m in &res.mismatches {
+        let kind = match &m.got {
+            Err(_) => "panicked",
+            Ok(g) if g.lines().count() != m.expected.lines().count() => "wrong-lines",
+            Ok(_) => "wrong-text",
+        };
+        let multi = m.assign.iter().any(|r| *r != 0);
+        let sig = format!(
+            "pretty-print|{}|{}{}|{}",
+            pp::MODES[m.mode],
+            if m.start == 0 { "start=root" } else { "start=inner" },
+            if multi { ",multiline" } else { "" },
+            kind
+        );
+        if seen_sig.contains(&sig) {
+            continue;
+        }
+        seen_sig.push(sig.clone());
+        let detail = format!(
+            "shape(parent array)={:?} renderings={:?} start={} mode={} chunking={:?} embedded={}: expected {:?}, got {:?}",
+            m.parent.iter().map(|p| if *p == usize::MAX { -1 } else { *p as i64 }).collect::<Vec<_>>(),
+            m.assign.iter().map(|r| pp::ALPHABET[*r as usize]).collect::<Vec<_>>(),
+            m.start, pp::MODES[m.mode], m.chunking, m.embedded, m.expected, m.got
+        );
+        unknown += emit_simple("C14", &sig, &detail, &known, json!({
+            "engine": "pp",
+            "parent": m.parent.iter().map(|p| if *p == usize::MAX { -1 } else { *p as i64 }).collect::<Vec<_>>(),
+            "assign": m.assign, "start": m.start, "mode": m.mode,
+            "chunking": format!("{:?}", m.chunking), "embedded": m.embedded,
+            "expected": m.expected,
+        }));
+    }
+    if let Some(path) = arg(args, "--evidence") {
+        write_json(&path, &json!({
+            "property_id": "C14", "tier": tier, "seed": seed() as i64, "level": "exploration",
+            "coverage": {
+                "evaluations": res.evaluations,
+                "distinct_nontrivial": res.distinct_nontrivial,
+                "rule": format!("every ordered tree shape with <= {max_n} nodes ({} shapes) x every start node x renderings from {:?} (full product for shapes with <= {full_n} nodes, otherwise every assignment with at most {k} non-trivial renderings) x 3 write chunkings x stand-alone/embedded-with-siblings-and-ancestors x 4 format modes, each compared for string equality with a reference renderer; distinct_nontrivial = distinct (mode, expected text) pairs among cases whose start node has at least one child", res.shapes, pp::ALPHABET),
+                "samples": res.samples,
+                "exhaustive": true,
+                "shapes": res.shapes,
+                "buildcfg": report::buildcfg(),
+            },
+            "assumptions": ["payload renderings are non-empty and do not end in a newline (the property's precondition)", "formatter width/precision flags are not explored"],
+            "wall_s": t0.elapsed().as_secs_f64(),
+            "violations": unknown,
+        }));
+    }
+    if unknown > 0 { 1 } else { 0 }
+}
+
+fn collect_states(n: usize, a: usize) -> Vec<state::State> {
+    let cfg = RunCfg {
+        n, a,
+        profile: Profile::default(),
+        judge: JudgeCfg::default(),
+        inits: vec![Init::New],
+        threads: threads(),
+        deadline: None,
+        state_cap: 5_000_000,
+        seed: 0,
+        validate_paths: false,
+        keep_digests: false,
+        collision_audit: false,
+        collect: true,
+        dump_level: None,
+        dump_out: None,
+    };
+    let rep = explore::explore(&cfg, &known::Known::default());
+    if !rep.exhaustive || rep.bad_states > 0 || !rep.pruned.is_empty() {
+        // the structural properties are not this check's business, but say what was skipped
+        eprintln!("note: {} successor(s) were out of the model's reach and are not part of the arena set", rep.pruned.values().sum::<u64>() + rep.bad_states);
+    }
+    rep.collected
+}
+
+/// C18: reader interleavings + compile-time side conditions.
+fn cmd_readers(args: &[String]) -> i32 {
+    use rayon::prelude::*;
+    let tier = arg(args, "--tier").unwrap_or_else(|| "quick".into());
+    let q = tier == "quick";
+    let t0 = Instant::now();
+    let known = known::Known::load(&format!("{VERIF}/known_findings.jsonl"));
+    let mut unknown = 0usize;
+    // ---- side conditions (compile-time facts; not model checking) ----
+    let facts = readers::auto_trait_facts();
+    let mut fact_json = Vec::new();
+    for (name, send, sync, esend, esync) in &facts {
+        fact_json.push(json!({"type": name, "send": send, "sync": sync}));
+        if send != esend || sync != esync {
+            unknown += emit_simple("C18", &format!("auto-traits|{name}|-|send={send},sync={sync}"),
+                &format!("{name}: Send={send} Sync={sync}, expected Send={esend} Sync={esync}"), &known,
+                json!({"engine": "readers", "part": "auto-traits"}));
+        }
+    }
+    let scan = match readers::scan_sources("/repo/indextree/src") {
+        Ok(s) => s,
+        Err(e) => machinery(&format!("cannot scan /repo/indextree/src: {e}")),
+    };
+    if !scan.forbid_unsafe {
+        unknown += emit_simple("C18", "source-scan|forbid-unsafe|-|missing", "indextree/src/lib.rs no longer carries #![forbid(unsafe_code)]", &known, json!({"engine": "readers", "part": "source-scan"}));
+    }
+    for hit in &scan.hits {
+        let what = hit.rsplit('`').nth(1).unwrap_or("?").to_string();
+        unknown += emit_simple("C18", &format!("source-scan|{what}|-|present"), &format!("unsafe code / interior mutability / global state in the crate: {hit}"), &known, json!({"engine": "readers", "part": "source-scan", "hit": hit}));
+    }
+    // ---- the interleaver ----
+    let pool = rayon::ThreadPoolBuilder::new().num_threads(threads()).build().unwrap();
+    let mut parts = Vec::new();
+    let plans: Vec<(usize, usize, usize, usize)> = if q {
+        vec![(3, 3, 2, 4)]
+    } else {
+        vec![(4, 4, 2, 5), (3, 3, 3, 3)]
+    };
+    let mut tot_states = 0u64;
+    let mut tot_steps = 0u64;
+    let mut tot_scheds = 0u64;
+    let mut sample = Vec::new();
+    let mut big_states: Vec<state::State> = Vec::new();
+    for (n, a, k, steps) in plans {
+        let states = collect_states(n, a);
+        let scheds = readers::interleavings(k, steps);
+        let results: Vec<(Option<readers::ReaderMismatch>, u64, u64, u64)> = pool.install(|| {
+            states.par_iter().map(|s| {
+                let mut st = readers::InterleaveStats { groups: 0, schedules: 0, steps: 0 };
+                let r = readers::check_state(s, k, steps, &scheds, &mut st);
+                (r, st.groups, st.schedules, st.steps)
+            }).collect()
+        });
+        let mut groups = 0u64; let mut sch = 0u64; let mut stp = 0u64;
+        for (i, (r, g, sc, sp)) in results.iter().enumerate() {
+            groups += g; sch += sc; stp += sp;
+            if let Some(m) = r {
+                let names: Vec<String> = m.readers.iter().map(|(k, id)| format!("{}({})", readers::SCRIPT_NAMES[*k], obs::fmt_id(Some(*id)))).collect();
+                let sig = format!("interleaver|{}|-|observation-differs-from-solo-run", m.readers.get(m.which).map(|(k, _)| readers::SCRIPT_NAMES[*k]).unwrap_or("arena-changed"));
+                let detail = format!("arena {} | readers {:?} | schedule {:?}: reader {} observes something else than when it runs alone", obs::fmt_obs(&states[i].obs), names, m.schedule, m.which);
+                unknown += emit_simple("C18", &sig, &detail, &known, json!({"engine": "readers", "part": "interleaver", "arena": obs::fmt_obs(&states[i].obs), "readers": names, "schedule": m.schedule}));
+                break;
+            }
+        }
+        eprintln!("[C18 {tier}] arenas of sweep ({n},{a}): {} states, groups of {k} readers x {} interleavings of {steps} steps: {groups} groups, {sch} schedules, {stp} steps, {:.1}s",
+            states.len(), scheds.len(), t0.elapsed().as_secs_f64());
+        tot_states += states.len() as u64; tot_steps += stp; tot_scheds += sch;
+        parts.push(json!({"arenas": format!("all {} states of sweep ({n},{a})", states.len()), "readers_per_group": k, "steps_per_reader": steps,
+            "interleavings_per_group": scheds.len(), "groups": groups, "schedules": sch, "steps": stp}));
+        if sample.is_empty() {
+            if let Some(s) = states.iter().max_by_key(|s| s.model.live_slots().len()) {
+                sample.push(json!({"arena": obs::fmt_obs(&s.obs), "readers": ["traverse(1)", "children-from-both-ends(1)"], "schedule": scheds[scheds.len() / 2]}));
+            }
+        }
+        let mut sorted: Vec<&state::State> = states.iter().collect();
+        sorted.sort_by_key(|s| std::cmp::Reverse(s.model.live_slots().len()));
+        big_states.extend(sorted.into_iter().take(if q { 4 } else { 12 }).cloned());
+    }
+    // ---- real threads: shuttle DFS (exhaustive over yield points) and a free-running pass ----
+    let mut shuttle_schedules = 0u64;
+    #[cfg(feature = "threads")]
+    {
+        let plan: Vec<(usize, usize)> = if q { vec![(2, 5)] } else { vec![(2, 5), (3, 3)] };
+        for (k, steps) in plan {
+            for s in big_states.iter().take(if q { 2 } else { 4 }) {
+                match readers::shuttle_dfs(s, k, steps) {
+                    Ok(n) => shuttle_schedules += n,
+                    Err(m) => {
+                        unknown += emit_simple("C18", "shuttle|threads|-|observation-differs-from-solo-run", &format!("arena {}: {m}", obs::fmt_obs(&s.obs)), &known, json!({"engine": "readers", "part": "shuttle"}));
+                    }
+                }
+            }
+        }
+        eprintln!("[C18 {tier}] shuttle check_dfs on real threads: {shuttle_schedules} schedules, {:.1}s", t0.elapsed().as_secs_f64());
+    }
+    let mut free_runs = 0;
+    for s in &big_states {
+        free_runs += 1;
+        if let Some(m) = readers::free_running(s, 8, if q { 300 } else { 2000 }) {
+            unknown += emit_simple("C18", "free-running|threads|-|observation-differs-from-solo-run", &format!("arena {}: {m}", obs::fmt_obs(&s.obs)), &known, json!({"engine": "readers", "part": "free-running"}));
+        }
+    }
+    if let Some(path) = arg(args, "--evidence") {
+        write_json(&path, &json!({
+            "property_id": "C18", "tier": tier, "seed": seed() as i64, "level": "model_checking",
+            "coverage": {
+                "states": tot_states.max(1),
+                "transitions": tot_steps.max(1),
+                "traces_validated_against_impl": tot_scheds + shuttle_schedules,
+                "samples": sample,
+                "exhaustive": true,
+                "schedules": tot_scheds,
+                "shuttle_dfs_schedules_on_real_threads": shuttle_schedules,
+                "free_running_thread_runs_sampled_not_exhaustive": free_runs,
+                "interleaver": parts,
+                "side_conditions_not_model_checking": {
+                    "auto_traits": fact_json,
+                    "source_scan": {"files": scan.files, "identifier_tokens": scan.tokens, "hits": scan.hits, "forbid_unsafe_code_present": scan.forbid_unsafe},
+                },
+                "explanation": "every reader step is executed on the real iterators over one shared &Arena; the schedules are the real executions (there is no separate model), so every schedule counts as validated against the implementation",
+                "buildcfg": report::buildcfg(),
+            },
+            "assumptions": [
+                "granularity: one next()/next_back()/accessor call is one atomic step; races inside a step would need unsafe code or interior mutability, whose absence is checked by the compiler (#![forbid(unsafe_code)], auto-trait probes) and by the token scan, reported as side conditions",
+                "rayon's internal schedules (par_iter) are not controlled",
+            ],
+            "wall_s": t0.elapsed().as_secs_f64(),
+            "violations": unknown,
+        }));
+    }
+    if unknown > 0 { 1 } else { 0 }
+}
+
+/// Re-execute a replay artefact without the explorer.
+fn cmd_replay(args: &[String]) -> i32 {
+    let path = args.get(1).cloned().unwrap_or_else(|| machinery("replay <file>"));
+    let text = std::fs::read_to_string(&path).unwrap_or_else(|e| machinery(&format!("{path}: {e}")));
+    let j: Value = serde_json::from_str(&text).unwrap_or_else(|e| machinery(&format!("{path}: {e}")));
+    let prop = j["property"].as_str().unwrap_or("C01").to_string();
+    let sig = j["signature"].as_str().unwrap_or("").to_string();
+    let target = prop_from_name(&prop).unwrap_or(0);
+    if j.get("engine").and_then(|e| e.as_str()) == Some("pp") {
+        let parent: Vec<usize> = j["parent"].as_array().unwrap().iter().map(|x| { let v = x.as_i64().unwrap(); if v < 0 { usize::MAX } else { v as usize } }).collect();
+        let assign: Vec<u8> = j["assign"].as_array().unwrap().iter().map(|x| x.as_u64().unwrap() as u8).collect();
+        let start = j["start"].as_u64().unwrap() as usize;
+        let mode = j["mode"].as_u64().unwrap() as usize;
+        let chunking = match j["chunking"].as_str().unwrap_or("Whole") { "PerLine" => pp::Chunking::PerLine, "PerChar" => pp::Chunking::PerChar, _ => pp::Chunking::Whole };
+        let (arena, ids) = pp::build(&parent, &assign, chunking, j["embedded"].as_bool().unwrap_or(false));
+        let expected = pp::reference(&parent, start, &assign, mode);
+        let got = ops::guarded(|| pp::render_real(&arena, ids[start], mode));
+        println!("expected:\n{expected}\n--- got:\n{}", match &got { Ok(g) => g.clone(), Err(m) => format!("<panic: {m}>") });
+        if got.ok().as_ref() != Some(&expected) {
+            println!("VIOLATION property={} replay={}", prop, path);
+            return 1;
+        }
+        println!("no longer reproduces");
+        return 0;
+    }
+    if let Some(c) = j.get("deep_cycles").and_then(|c| c.as_u64()) {
+        let r = deep::run_stripe(c as usize + 2, 0, 1, JudgeCfg::default().retire_min);
+        for (cy, f) in &r.failures {
+            println!("cycle {cy}: {} — {}", f.sig, f.detail);
+        }
+        if r.failures.iter().any(|(_, f)| f.props & target != 0) {
+            println!("VIOLATION property={} replay={}", prop, path);
+            return 1;
+        }
+        println!("no longer reproduces");
+        return 0;
+    }
+    let Some(opsj) = j.get("ops").and_then(|o| o.as_array()) else {
+        println!("this replay file is descriptive only:\n{}", text);
+        return 0;
+    };
+    let init = j["init"].as_str().unwrap_or("Arena::new()");
+    let mut s = if let Some(rest) = init.strip_prefix("seed(cycles=") {
+        let mut it = rest.trim_end_matches(')').split(",slots=");
+        let c: usize = it.next().and_then(|x| x.parse().ok()).unwrap_or(0);
+        let sl: usize = it.next().and_then(|x| x.parse().ok()).unwrap_or(1);
+        deep::seed_state(c, sl)
+    } else if let Some(rest) = init.strip_prefix("Arena::with_capacity(") {
+        state::State::initial(indextree::Arena::with_capacity(rest.trim_end_matches(')').parse().unwrap_or(0)))
+    } else {
+        state::State::initial(indextree::Arena::new())
+    };
+    let mut pl = plan(&prop, "quick");
+    pl.judge.target = target;
+    let mut found = false;
+    let mut all_ops: Vec<Op> = opsj.iter().filter_map(|o| o.as_str()).filter_map(Op::parse).collect();
+    let last_is_op = j.get("failing_op").and_then(|o| o.as_str()).and_then(Op::parse);
+    if let Some(op) = last_is_op {
+        all_ops.push(op);
+    }
+    for (i, op) in all_ops.iter().enumerate() {
+        let r = step::step(&s, *op, &pl.judge);
+        println!("{:>3}. {:<28} -> {}", i + 1, op.text(), r.outcome.short());
+        for f in &r.failures {
+            println!("       judge {} [{}]: {}", f.sig, prop_names(f.props).join(","), f.detail);
+            if f.sig == sig || f.props & target != 0 {
+                found = true;
+            }
+        }
+        match r.next {
+            Some(n) => s = n,
+            None => break,
+        }
+    }
+    let mut ctr = judges::StateJudgeCounters { pulls: 0, product_steps: 0, lockstep: 0 };
+    for f in judges::judge_state(&s, &pl.judge, &pl.profile, 8, 64, &mut ctr) {
+        println!("     state judge {} [{}]: {}", f.sig, prop_names(f.props).join(","), f.detail);
+        if f.sig == sig || f.props & target != 0 {
+            found = true;
+        }
+    }
+    println!("final arena: {}", obs::fmt_obs(&s.obs));
+    if found {
+        println!("VIOLATION property={} replay={}", prop, path);
+        1
+    } else {
+        println!("no longer reproduces");
         0
     }
 }
@@ -333,6 +720,9 @@ fn cmd_deep(args: &[String]) -> i32 {
                     validate_paths: true,
                     keep_digests: false,
                     collision_audit: false,
+                    collect: false,
+                    dump_level: None,
+                    dump_out: None,
                 };
                 let rep = explore::explore(&cfg, &known);
                 eprintln!(
@@ -356,6 +746,9 @@ fn cmd_deep(args: &[String]) -> i32 {
                 validate_paths: true,
                 keep_digests: false,
                 collision_audit: false,
+                    collect: false,
+                    dump_level: None,
+                    dump_out: None,
             };
             let rep = explore::explore(&cfg, &known);
             eprintln!(
@@ -427,6 +820,27 @@ fn main() {
                 }
             }
         }
+        Some("pp") => match std::panic::catch_unwind(|| cmd_pp(&args)) {
+            Ok(c) => c,
+            Err(e) => {
+                eprintln!("MACHINERY-ERROR: engine panicked: {}", ops::panic_msg(e));
+                2
+            }
+        },
+        Some("readers") => match std::panic::catch_unwind(|| cmd_readers(&args)) {
+            Ok(c) => c,
+            Err(e) => {
+                eprintln!("MACHINERY-ERROR: engine panicked: {}", ops::panic_msg(e));
+                2
+            }
+        },
+        Some("replay") => match std::panic::catch_unwind(|| cmd_replay(&args)) {
+            Ok(c) => c,
+            Err(e) => {
+                eprintln!("MACHINERY-ERROR: engine panicked: {}", ops::panic_msg(e));
+                2
+            }
+        },
         Some("deep") => match std::panic::catch_unwind(|| cmd_deep(&args)) {
             Ok(c) => c,
             Err(e) => {
